@@ -1227,3 +1227,12 @@ def r_c18(acc, case):
         _c18_rename(acc)
     else:
         _c18_case(acc, case)
+
+
+# ----------------------------------------------------------------------------------------------- further harness modules
+# (each registers its @harness / @replayer functions on import)
+for _mod in ("harness_create", "harness_recheck", "harness_rebuild", "harness_misc"):
+    try:
+        __import__("native." + _mod)
+    except ImportError as _e:          # a missing module must not take the other properties down
+        sys.stderr.write(f"harness module {_mod} not available: {_e}\n")
